@@ -146,9 +146,11 @@ func (s *Server) Session(strm signaling.SRPCSignaling_SessionStream) error {
 	} else {
 		sess.peerB = ourPeerTkr
 	}
-	// If there was a remote attached previously, clear any pending state.
+	// If there was a remote attached previously, clear any pending state,
+	// including acks and clears from the previous session that were not yet relayed.
 	if _, prevRemotePeer := sess.getCurrPeers(localIsPeerA); prevRemotePeer != nil {
 		prevRemotePeer.recv, prevRemotePeer.recvSent = nil, nil
+		prevRemotePeer.recvClear, prevRemotePeer.outAcked = nil, nil
 	}
 
 	sess.seqno++
@@ -174,8 +176,10 @@ func (s *Server) Session(strm signaling.SRPCSignaling_SessionStream) error {
 			*currLocalPeer = nil
 			// Get the current remote peer.
 			if _, currRemotePeer := sess.getCurrPeers(localIsPeerA); currRemotePeer != nil {
-				// Clear the pending packet to recv if any.
+				// Clear the pending packet to recv if any, and any ack or clear
+				// not yet relayed: they belong to the session that just ended.
 				currRemotePeer.recv, currRemotePeer.recvSent = nil, nil
+				currRemotePeer.recvClear, currRemotePeer.outAcked = nil, nil
 			}
 			sess.seqno++
 			sess.broadcast()
